@@ -208,6 +208,10 @@ def _scen(case, cov, viol):
             p["b_dem"], p["b_gop"] = int(p["b_turnout"] * 0.97), int(p["b_turnout"] * 0.02)
             p["r_gop"] = 0
         units.append(p)
+    # a county that consists of one blocklisted unit without any votes yet: predicted two-party turnout 0, margin 0/0
+    z = E.make_probe(case["seed"], 9, "unit_blocklisted", "newcounty", office, "2" if office == "H" else None, weights="twoparty")
+    z.update(id=z["id"].replace("AAcN", "AAcZ"), county="AAcZ", pev=0.0, r_dem=0, r_gop=0, r_turnout=0)
+    units.append(z)
     mp = {"B": case["B"]}
     if case["lambda"] is not None:
         mp["lambda_"] = case["lambda"]
@@ -219,9 +223,11 @@ def _scen(case, cov, viol):
         viol(f"run-raised:{res['error'][0]}", f"{case}: {res['error']}")
         return 1, True
     for tname, tab in res["ok"].items():
-        for r in E.tab_rows(tab):
+        for r in E.tab_rows_num(tab):
             ident = r.get("geographic_unit_fips") or tuple(r.get(c) for c in ("postal_code", "district", "county_fips") if c in r)
             if tname != "unit_data":
+                if r.get("county_fips") == "AAcZ":
+                    cov["zero_turnout_groups"] += 1
                 if not (-1.0 <= r["pred_margin"] <= 1.0):
                     viol("group-margin-out-of-range", f"{case}: {tname} {ident} pred_margin={r['pred_margin']}")
                 if not r["pred_turnout"] >= 0:
@@ -306,7 +312,7 @@ def _pres(case, cov, viol):
         viol(f"run-raised:{res['error'][0]}", f"{case}: {res['error']} {res.get('tb', '')[-300:]}")
         return 1, True
     for tname in ("state_data", "county_data"):
-        for r in E.tab_rows(res["ok"][tname]):
+        for r in E.tab_rows_num(res["ok"][tname]):
             ident = tuple(r.get(c) for c in ("postal_code", "county_fips") if c in r)
             if not (-1.0 <= r["pred_margin"] <= 1.0):
                 viol("group-margin-out-of-range", f"{case}: {tname} {ident} pred_margin={r['pred_margin']} (presidential correction)")
@@ -337,4 +343,4 @@ def evaluate(case):
     return out
 
 
-REQUIRED_COUNTERS = {"rank_states": 1000000, "draw_matrices": 10000, "scen_group_rows": 100, "extreme_runs": 5, "presidential_runs": 4, "presidential_correction_at_the_clip": 2}
+REQUIRED_COUNTERS = {"rank_states": 1000000, "draw_matrices": 10000, "scen_group_rows": 100, "extreme_runs": 5, "zero_turnout_groups": 10, "presidential_runs": 4, "presidential_correction_at_the_clip": 2}
